@@ -1,6 +1,7 @@
 package main
 
 import (
+	"fmt"
 	"math/big"
 	"reflect"
 
@@ -185,6 +186,36 @@ func (f *chainFam) lgProject(s *lgSnap) M {
 			"eq": big.NewInt(spi.SpaceUsed).Cmp(fp) == 0})
 	}
 	sortRecs(plans)
+	// stored files (C17 at whole-application level, creators in any valid spelling): problems found per file, none expected
+	fileBad := []interface{}{}
+	byOwner := map[string]bool{}
+	for _, uf := range f.c.App.StorageKeeper.GetAllFileByOwner(f.c.Ctx) {
+		byOwner[fmt.Sprintf("%x/%s/%d", uf.Merkle, uf.Owner, uf.Start)] = true
+	}
+	nByMerkle := 0
+	for _, uf := range f.c.App.StorageKeeper.GetAllFileByMerkle(f.c.Ctx) {
+		nByMerkle++
+		id := fmt.Sprintf("%x/%s/%d", uf.Merkle, uf.Owner, uf.Start)
+		if !byOwner[id] {
+			fileBad = append(fileBad, "index")
+		}
+		if uf.MaxProofs >= 0 && int64(len(uf.Proofs)) > uf.MaxProofs {
+			fileBad = append(fileBad, "over")
+		}
+		seen := map[string]bool{}
+		for _, pk := range uf.Proofs {
+			if seen[pk] {
+				fileBad = append(fileBad, "dup")
+			}
+			seen[pk] = true
+			if _, ok := f.c.App.StorageKeeper.GetProofWithBuiltKey(f.c.Ctx, []byte(pk)); !ok {
+				fileBad = append(fileBad, "norecord")
+			}
+		}
+	}
+	if nByMerkle != len(byOwner) {
+		fileBad = append(fileBad, "index")
+	}
 	// how the emission of this step (supply growth, if any) was split, against floor(emission * percentage / 100) computed
 	// with big integers (emissions may be anywhere in the int64 range): residual per recipient, and what the mint module kept
 	split := M{"rs": int64(0), "rd": int64(0), "rp": int64(0), "rem": int64(0)}
@@ -208,7 +239,7 @@ func (f *chainFam) lgProject(s *lgSnap) M {
 		split["rem"] = small(new(big.Int).Sub(s.bal["mint"]["ujkl"], f.lgPrev.bal["mint"]["ujkl"]))
 	}
 	f.lgPrev = s
-	out := M{"bal": bal, "bids": bids, "coll": num(s.coll), "supply": sup, "auth": auth, "plans": plans, "split": split}
+	out := M{"bal": bal, "bids": bids, "coll": num(s.coll), "supply": sup, "auth": auth, "plans": plans, "split": split, "files": fileBad}
 	if !fits || f.lgBig {
 		f.lgBig = true
 		return M{"big": true, "split": split}
